@@ -135,11 +135,15 @@ func histDigestMain(args []string) int {
 	}
 	for h, ops := range c14Histories() {
 		w, err := buildHistory(256, ops)
-		if err != nil {
-			fmt.Println("HARNESS", err)
-			return 2
+		if err == nil {
+			err = w.Commit(2, h%2 == 1)
 		}
-		if err := w.Commit(2, h%2 == 1); err != nil {
+		if err != nil {
+			if v, ok := err.(*Violation); ok {
+				// an operation of the history misbehaves in this process: part of what is compared
+				fmt.Printf("H%d OPVIOLATION %s\n", h, v.Msg)
+				continue
+			}
 			fmt.Println("HARNESS", err)
 			return 2
 		}
